@@ -588,7 +588,7 @@ theorem step_safe (w : World) (op : Op) (h : WInv w) :
     have h1 := closeEnding_safe [4, 5, 6] w.slots h
     have h2 := runExits_safe w.exits _ h1.1
     refine ⟨winv_replicate _, ?_⟩
-    refine noBad_append (noBad_append (noBad_append h1.2 (noBad_filter _ h2.2)) ?_) (noBad_opLine _)
+    refine noBad_append (noBad_append (noBad_filter _ h2.2) ?_) (noBad_opLine _)
     simp [Cfg.fixed, noBad]
   | opt n =>
     simp only [step] at hr; split at hr
